@@ -15,6 +15,7 @@ import (
 	"math"
 	"strings"
 	"testing"
+	"time"
 
 	"github.com/Comcast/sheens/core"
 	"github.com/Comcast/sheens/interpreters/ecmascript"
@@ -47,6 +48,8 @@ var c10Attacks = []struct{ name, js string }{
 	{"props-nested", `_.props.cfg.x = 42;`},
 	{"frozen", `Object.freeze(Object.prototype); Object.freeze(Array.prototype);`},
 	{"define", `Object.defineProperty(Object.prototype, "sneaky", {get: function() { return "S"; }});`},
+	// (extended interpreter only) whatever the matcher utility hands back is the script's to change
+	{"match-result", `var r = _.match({"zz": "?x"}, {"zz": 1}); if (r && r[0]) { if (r[0].n) { r[0].n.q = 98; } if (r[0].arr) { r[0].arr[0] = 6; } if (r[0].deep) { r[0].deep[0].added = 2; } r[0].keep = "changed"; }`},
 }
 
 const c10Probe = `
@@ -188,6 +191,9 @@ func runC10(c *sim.Ctx, t *testing.T, concurrent bool) {
 		return
 	}
 	interp := ecmascript.NewInterpreter()
+	if c.Bool("extended") {
+		interp = &ecmascript.Interpreter{Extended: true}
+	}
 	ctx := context.Background()
 	// programs: one probe, 1-3 polluters
 	type prog struct {
@@ -261,7 +267,17 @@ func runC10(c *sim.Ctx, t *testing.T, concurrent bool) {
 		}
 		return ref.Canon(cp)
 	}
+	// a third of the concurrent runs give every execution a deadline that it meets with room
+	// to spare when it runs alone (at most 10 ticks of 1 ms against 20 ms): beside others it
+	// must meet it just as well - executions do not wait for each other
+	deadlines := concurrent && c.Chance(1, 3, "deadlines")
 	one := func(i int, tick func()) {
+		ctx := ctx
+		if deadlines {
+			var cancel context.CancelFunc
+			ctx, cancel = context.WithTimeout(ctx, 20*time.Millisecond)
+			defer cancel()
+		}
 		pg := progs[plan[i]]
 		bs := match.Bindings{"n": map[string]interface{}{"q": 1.0}, "arr": []interface{}{1.0}, "keep": "k", "id": float64(i),
 			"deep": []interface{}{map[string]interface{}{"k": []interface{}{1.0, map[string]interface{}{"z": 1.0}}}, []interface{}{1.0}}}
@@ -328,7 +344,12 @@ func runC10(c *sim.Ctx, t *testing.T, concurrent bool) {
 			for i := 0; i < nexec; i++ {
 				i := i
 				s.Go(fmt.Sprintf("x%d", i), func(tk *sim.Task) {
-					one(i, func() { sim.Yield("h#tick") })
+					one(i, func() {
+						sim.Yield("h#tick")
+						if deadlines {
+							sim.Sleep(time.Millisecond)
+						}
+					})
 				})
 			}
 			s.Run()
@@ -398,7 +419,7 @@ func runC10(c *sim.Ctx, t *testing.T, concurrent bool) {
 		}
 	}
 	c.MixHash(shape)
-	c.Path = shape + fmt.Sprint(concurrent, useCompiled, emptyProps, nanBindings, viaAction)
+	c.Path = shape + fmt.Sprint(concurrent, useCompiled, emptyProps, nanBindings, viaAction, deadlines)
 	for _, pg := range progs[1:] {
 		c.Path += fmt.Sprint(pg.attacks)
 	}
